@@ -174,9 +174,16 @@ Definition wf_elf (F : file) : bool :=
   forallb (fun e => match str_at F (f_strtab_base F + sy_name (fst e)) with Some _ => true | None => false end) (f_syms F) &&
   (has_dyn F || match f_dyns F with [] => true | _ => false end).
 
+(* distinct line programs start at distinct positions; resolving the names of a v5 header reads
+   .debug_line_str / .debug_str, never .debug_line itself *)
+Definition wf_lines (F : file) : bool :=
+  znodup (map (fun kv => ld_start (snd kv)) (f_lines F)) &&
+  forallb (fun kv => forallb (fun p => negb (Nat.eqb (fst p) S_LINE)) (lr_eff (ld_raw (snd kv)))) (f_lines F).
+
 Definition wf_file (F : file) : bool :=
   units_chain 0 (f_units F) (f_info_size F) &&
   forallb (wf_unit F) (f_units F) &&
+  wf_lines F &&
   wf_elf F.
 
 (* the finding C10/lineprogram-file_entry-grows lives exactly here *)
@@ -552,3 +559,22 @@ Definition valid_op (F : file) (o : op) : bool :=
   | EString off => match str_at F (f_strtab_base F + off) with Some _ => true | None => false end
   | EGetTag n => has_dyn F && (0 <=? n)
   end.
+
+(* ------------------------------------------------------------------ hypotheses of the refinement theorem *)
+(* number of entries of a subtree (closing null entries included) *)
+Fixpoint node_count (n : node) : nat :=
+  match n with Node _ raw kids _ _ => S (fold_right (fun k acc => node_count k + acc)%nat 0%nat kids) + (if dr_hc raw then 1 else 0) end.
+
+(* the bound that the fuel of the machine's loops must exceed: more than the number of units, of dynamic
+   tags, and of twice the entries of the largest unit *)
+Definition fuel_bound (F : file) : nat :=
+  (length (f_units F) + length (f_dyns F) +
+   2 * fold_right (fun ud acc => Nat.max (node_count (ud_tree ud)) acc) 0 (f_units F) + 4)%nat.
+Definition fuel_ok (F : file) (fuel : nat) : bool := (fuel_bound F <? fuel)%nat.
+
+(* the finding lineprogram-header-file_entry-grows-after-get_entries concerns exactly the query
+   LineProg on a file with a DW_LNE_define_file *)
+Definition outside_finding (F : file) (o : op) : bool :=
+  match o with LineProg _ => no_define_file F | _ => true end.
+
+Definition ans_of (r : res answer) : answer := match r with Ok a => a | Err e => AErr e end.
